@@ -71,7 +71,7 @@ theorem step_inv {s s' : State} {l : Label} (h : Inv kd res s) (hs : step kd res
       · intro r hr; exact g8 r (List.mem_filter.mp hr).1
       · intro t2 th2 h2
         have := h.ti t2 th2 h2
-        exact ⟨this.lockIff, this.kind, this.instLt, this.tmpLt, this.pc⟩
+        exact ⟨this.lockIff, this.kind, this.instLt, this.tmpLt, this.seenLt, this.pc⟩
     · cases hs
   | collect k =>
     simp only [step] at hs
@@ -127,7 +127,7 @@ theorem init_inv (cap : Nat) (scripts : List (List Op)) : Inv kd res (initState 
   | some sc =>
     simp only [hsc, Option.map_some, Option.some.injEq] at hth
     subst hth
-    refine ⟨?_, ?_, ?_, ?_, ?_⟩ <;> simp [inLocked, kindOK, pcInv]
+    refine ⟨?_, ?_, ?_, ?_, ?_, ?_⟩ <;> simp [inLocked, kindOK, pcInv]
 
 theorem initSingleton_inv (scripts : List (List Op)) : Inv kd res (initSingleton scripts) := by
   refine ⟨⟨?_, ?_, ?_, ?_, ?_, ?_, ?_, ?_, ?_, ?_⟩, ?_, ?_⟩ <;> (try (simp [initSingleton]; done))
@@ -138,6 +138,6 @@ theorem initSingleton_inv (scripts : List (List Op)) : Inv kd res (initSingleton
   | some sc =>
     simp only [hsc, Option.map_some, Option.some.injEq] at hth
     subst hth
-    refine ⟨?_, ?_, ?_, ?_, ?_⟩ <;> simp [inLocked, kindOK, pcInv]
+    refine ⟨?_, ?_, ?_, ?_, ?_, ?_⟩ <;> simp [inLocked, kindOK, pcInv]
 
 end Fact
